@@ -74,6 +74,12 @@ func checkC05(r *Run) {
 		g3 := concGenFor(r, rng, 3, 1, int(r.Seed)+1)
 		exploreConc(r, g3, "", 30*time.Minute)
 	}
+	// two routes below a node whose key holds two infix catch-alls (its nested lookup structure is rebuilt by every
+	// copy of the node): a transaction updating both against a one-call writer and a reader
+	gi := concGenFor(r, rand.New(rand.NewSource(r.Seed+7)), 2, 1, 2)
+	gi.Keys = []string{"/a/*{x}/b/*{y}/c/d", "/a/*{x}/b/*{y}/c/e"}
+	gi.Init = []int{91, 92}
+	exploreConc(r, gi, "", pick(r, 5*time.Minute, 30*time.Minute))
 	runSingleLoadPerRead(r)
 	runRequestKeepsItsState(r)
 	runWriterAfterEndings(r)
